@@ -568,6 +568,96 @@ fn adaptor_stream_case(imp: Impl, payloads: &[Vec<u8>], plan: &[usize]) -> Resul
 }
 
 /// every kind's B1 packet leaves as exactly one datagram holding exactly its frame
+/// The same datagram compositions through a connection made the way applications make it - the public
+/// Builder (`insim::udp(..).compressed()/uncompressed().connect_blocking()/connect_async()`), with and
+/// without a local address - instead of a hand-assembled adaptor + Framed.  One fresh connection per
+/// composition; the peer learns the connection's address from the ISI it receives.
+fn builder_connection_checks(acc: &mut crate::report::Acc, tier: Tier) {
+    for imp in [Impl::Blocking, Impl::Tokio] {
+        for compressed in [true, false] {
+            let (singles, bursts) = compositions_raw(compressed, Tier::Thorough);
+            let mut comps: Vec<Step> = singles.into_iter().map(|d| vec![d]).collect();
+            comps.extend(bursts);
+            // the largest datagram the protocol knows, full of packets, in either mode
+            comps.push(vec![if compressed { vec![1020] } else { vec![252, 252, 252, 252, 12] }]);
+            comps.push(vec![vec![4; 255]]);
+            for (ci, comp) in comps.iter().enumerate() {
+                for with_local in [false, true] {
+                    if tier == Tier::Quick && with_local && ci % 3 != 0 { continue; }
+                    acc.eval();
+                    let (bytes, frames) = datagram(compressed, comp, ci);
+                    let want = expected(compressed, &frames);
+                    let label = format!("{} {} udp {} local address, datagram(s) of {} bytes holding {} packet(s)", if imp == Impl::Blocking { "connect_blocking" } else { "connect_async" }, if compressed { "compressed" } else { "uncompressed" }, if with_local { "with" } else { "without" }, sizes_of(&bytes), frames.len());
+                    let replay = json!({"site": "builder-connection", "case": label});
+                    let sig = |what: &str| format!("C08|{}|builder-connection|{what}", if imp == Impl::Blocking { "Blocking" } else { "Tokio" });
+                    let n = frames.len();
+                    let (tx, rx) = std::sync::mpsc::channel();
+                    let bytes2 = bytes.clone();
+                    // (a blocking connection made by the builder waits 90 s for a datagram that never comes:
+                    // the case runs on its own thread and is given up on after 5 s)
+                    let _ = std::thread::spawn(move || { let _ = tx.send(guard(|| builder_connection_case(imp, compressed, with_local, &bytes2, n))); });
+                    match rx.recv_timeout(Duration::from_secs(5)) {
+                        Err(_) => acc.violate(ci as u64, sig("packet-not-delivered"), format!("{label}: the packets were not all delivered within 5 s"), replay),
+                        Ok(Err(p)) => acc.violate(ci as u64, sig("panic"), format!("{label}: {p}"), replay),
+                        Ok(Ok(Err(e))) if e.starts_with("harness") => { eprintln!("MACHINERY: {label}: {e}"); std::process::exit(4); },
+                        Ok(Ok(Err(e))) => acc.violate(ci as u64, sig("packet-not-delivered"), format!("{label}: {e}"), replay),
+                        Ok(Ok(Ok(got))) if got == want => { acc.class("builder-connection-delivers-every-packet"); acc.nontrivial(); },
+                        Ok(Ok(Ok(got))) => {
+                            let i = got.iter().zip(&want).position(|(a, b)| a != b).unwrap_or(got.len().min(want.len()));
+                            acc.violate(ci as u64, sig("packet-altered"), format!("{label}: packet #{i} differs: got {} expected {}", got.get(i).map(|x| x.chars().take(80).collect::<String>()).unwrap_or_default(), want.get(i).map(|x| x.chars().take(80).collect::<String>()).unwrap_or_default()), replay)
+                        },
+                    }
+                }
+            }
+        }
+    }
+}
+
+fn builder_connection_case(imp: Impl, compressed: bool, with_local: bool, dgrams: &[Vec<u8>], n: usize) -> Result<Vec<String>, String> {
+    let peer = std::net::UdpSocket::bind("127.0.0.1:0").map_err(|e| format!("harness: {e}"))?;
+    peer.set_read_timeout(Some(Duration::from_secs(2))).unwrap();
+    let local = if with_local { let s = std::net::UdpSocket::bind("127.0.0.1:0").map_err(|e| format!("harness: {e}"))?; Some(s.local_addr().unwrap()) } else { None };
+    let mut b = insim::udp(peer.local_addr().unwrap(), local).connect_timeout(Duration::from_secs(2)).verify_version(false);
+    b = if compressed { b.compressed() } else { b.uncompressed() };
+    let feed = |from: std::net::SocketAddr| -> Result<(), String> {
+        for d in dgrams { let _ = peer.send_to(d, from).map_err(|e| format!("harness: send: {e}"))?; }
+        Ok(())
+    };
+    let mut isi = [0u8; 2048];
+    match imp {
+        Impl::Blocking => {
+            let mut conn = b.connect_blocking().map_err(|e| format!("harness: connect: {e}"))?;
+            let (_, from) = peer.recv_from(&mut isi).map_err(|e| format!("harness: no ISI arrived: {e}"))?;
+            feed(from)?;
+            let mut got = vec![];
+            for k in 0..n {
+                match conn.read() {
+                    Ok(p) => got.push(format!("Ok({p:?})")),
+                    Err(e) => return Err(format!("read #{k} returned {e} instead of the packet")),
+                }
+            }
+            Ok(got)
+        },
+        Impl::Tokio => {
+            let rt = tokio::runtime::Builder::new_current_thread().enable_io().enable_time().build().map_err(|e| format!("harness: {e}"))?;
+            rt.block_on(async {
+                let mut conn = tokio::time::timeout(Duration::from_secs(2), b.connect_async()).await.map_err(|_| "harness: connect timed out".to_string())?.map_err(|e| format!("harness: connect: {e}"))?;
+                let (_, from) = peer.recv_from(&mut isi).map_err(|e| format!("harness: no ISI arrived: {e}"))?;
+                feed(from)?;
+                let mut got = vec![];
+                for k in 0..n {
+                    match tokio::time::timeout(Duration::from_secs(3), conn.read()).await {
+                        Ok(Ok(p)) => got.push(format!("Ok({p:?})")),
+                        Ok(Err(e)) => return Err(format!("read #{k} returned {e} instead of the packet")),
+                        Err(_) => return Err(format!("read #{k} did not return within 3 s: data of the datagram was lost")),
+                    }
+                }
+                Ok(got)
+            })
+        },
+    }
+}
+
 fn write_checks(acc: &mut crate::report::Acc) {
     let kinds = spec::load();
     for imp in [Impl::Blocking, Impl::Tokio] {
@@ -697,6 +787,7 @@ pub fn run_check(tier: Tier, replay: Option<String>) -> i32 {
     }
     write_checks(&mut acc);
     adaptor_stream_checks(&mut acc);
+    builder_connection_checks(&mut acc, tier);
     acc.samples.push(json!({"instance": insts[0].label, "history (datagram sizes)": [1020, 1020, 1020, 1020, 1020, 1016, 8]}));
     let mut extra = serde_json::Map::new();
     let _ = extra.insert("states".into(), json!(states));
@@ -710,6 +801,7 @@ pub fn run_check(tier: Tier, replay: Option<String>) -> i32 {
         assumptions: vec![
             "loopback UDP with one datagram (or one burst of 2-3 datagrams, < 3 kB) in flight preserves boundaries and order; every wait carries a 2 s watchdog that turns a hang into a reported violation".into(),
             "writes: every kind's B1 packet, both implementations and modes, must arrive as exactly one datagram equal to Codec::encode(p)".into(),
+            "builder-connection: every datagram composition (single and burst) again through connections made by the public Builder (blocking / tokio x mode x with / without a local address), one fresh connection each".into(),
         ],
         started,
     })
